@@ -76,6 +76,32 @@ pub struct WorldSpec {
     pub nu6_3_offset: Option<u32>,
     /// Anchor retention interval handed to the wallet (`None` = default ZIP 318 = 144).
     pub retention_interval: Option<u32>,
+    /// `None`: the model chain (and the wallet birthday) starts right below Sapling activation with empty note
+    /// commitment trees. `Some`: it starts `gap` blocks later, on top of trees that already hold `sizes` leaves.
+    #[serde(default)]
+    pub base: Option<BaseSpec>,
+}
+
+/// The state of the chain below the first modelled block: note commitment trees of the given sizes (Sapling, Orchard,
+/// Ironwood; the Ironwood size is forced to 0 when NU6.3 is not active at the base height) whose frontiers consist of
+/// pseudo-random nodes. Sizes just below / at / above a multiple of 2^16 make the modelled blocks cross a shard boundary.
+#[derive(Clone, Debug, PartialEq, Eq, Default, Serialize, Deserialize)]
+pub struct BaseSpec {
+    pub gap: u8,
+    pub sizes: [u32; 3],
+}
+
+pub fn arb_base_size() -> impl Strategy<Value = u32> {
+    prop_oneof![
+        2 => Just(0u32),
+        3 => 1u32..300,
+        6 => (1u32..14).prop_map(|k| (1 << 16) - k),
+        2 => (14u32..80).prop_map(|k| (1 << 16) - k),
+        1 => Just(1u32 << 16),
+        1 => (1u32..200).prop_map(|k| (1 << 16) + k),
+        2 => (1u32..14, 2u32..9).prop_map(|(k, m)| (m << 16) - k),
+        1 => 0u32..(1 << 24),
+    ]
 }
 
 /// Boundary-weighted note values (zatoshis). 5000 = MARGINAL_FEE (the dust split).
@@ -146,12 +172,17 @@ pub fn arb_world() -> impl Strategy<Value = WorldSpec> {
         0u8..=2,
         prop_oneof![2 => Just(None), 3 => (0u32..12).prop_map(Some)],
         prop_oneof![3 => Just(None), 2 => (1u32..12).prop_map(Some)],
+        prop_oneof![
+            5 => Just(None),
+            4 => (1u8..=30, [arb_base_size(), arb_base_size(), arb_base_size()]).prop_map(|(gap, sizes)| Some(BaseSpec { gap, sizes })),
+        ],
     )
-        .prop_map(|(seed, n_accounts, n_foreign, nu6_3_offset, retention_interval)| WorldSpec {
+        .prop_map(|(seed, n_accounts, n_foreign, nu6_3_offset, retention_interval, base)| WorldSpec {
             seed,
             n_accounts,
             n_foreign,
             nu6_3_offset,
             retention_interval,
+            base,
         })
 }
